@@ -126,7 +126,12 @@ func runCL(c clCase, o *vfutil.Obs, hook func(x *clExec, op clOp) (*vfutil.Failu
 	return nil
 }
 
-func (x *clExec) sig(s string) string { return x.c.Flavor + "/" + s }
+func (x *clExec) sig(s string) string {
+	if x.c.Sig != "" {
+		return x.c.Sig + "/" + s
+	}
+	return x.c.Flavor + "/" + s
+}
 
 func (x *clExec) noteEpochs(msgs []*mMsg) {
 	for _, m := range msgs {
@@ -558,6 +563,9 @@ func (x *clExec) verify(when string) *vfutil.Failure {
 	{
 		if s := epochCacheInvariant(l, newestEpoch, len(all) > 0, x.maxEpoch); s != "" {
 			return vfutil.Failf(x.sig("epoch-cache"), "%s: %s", when, s)
+		}
+		if s := epochLookupInvariant(l, all); s != "" {
+			return vfutil.Failf(x.sig("epoch-history-disagrees-with-messages"), "%s: %s", when, s)
 		}
 	}
 	return nil
